@@ -650,7 +650,8 @@ def _own_tree(spec, dims, own, dflt_own, prefix=()):
 
 
 def case_join(case):
-    dims, spec, own, dflt_own, declared, dflt_t, path = case
+    dims, spec, own, dflt_own, declared, dflt_t, path = case[:7]
+    used = len(case) > 7 and case[7]       # the unowned tree was traversed / queried before it joined
     dims = tuple(dims)
     depth = len(dims)
     ids = list(RANK_IDS[:depth])
@@ -666,11 +667,20 @@ def case_join(case):
         feats.add("own_default_differs")
     feats.add("declared_shape" if declared else "no_declared_shape")
     feats.add("via:" + path)
+    if used:
+        feats.add("read_before_joining")
 
     def V(sym, exp, obs, *extra):
         out.append((path, sym, feats | set(extra), exp, obs))
     try:
         root = _own_tree(spec, dims, own, dflt_own)
+        if used:
+            for fibers in _levels(root):
+                for f in fibers:
+                    f.getActive()
+                    list(f.iterActive(tick=False))
+                    list(f & f)
+                    f.getShape()
         if path == "fromFiber":
             t = Tensor.fromFiber(ids, root, shape=list(dims) if declared else None, default=dflt_t)
         else:
@@ -757,6 +767,8 @@ def shard_join(acc, shard, nshards, params):
                             for declared in (False, True):
                                 for path in ("fromFiber", "setRoot"):
                                     yield (dims, spec, (own_id, own_shape, own_fmt), dflt_own, declared, dflt_t, path)
+                                    if own_shape == "none" and dflt_own == dflt_t and not own_id:
+                                        yield (dims, spec, (own_id, own_shape, own_fmt), dflt_own, declared, dflt_t, path, True)
     drive(acc, "join", case_join, gen(), shard, nshards, family="join[%s]" % name)
 
 
